@@ -95,7 +95,7 @@ class OperatorTemplate(AbstractBaseTemplate):
         if variables:
             variables = _update_variables(self.variables, variables)
         else:
-            variables = self.variables
+            variables = self.variables.copy()  # copy: variables that drop out of the equations are removed below
 
         rogue_variables = set()
         for var in variables:
